@@ -29,24 +29,24 @@ func init() {
 
 // deletion ownership table: function -> class (reason)
 var deleteOwners = map[string]string{
-	"(*Metadata).uniquify":                 "roll-back of a failed uniquify (directories it just created)",
-	"(*Metadata).removeAll":                "FILES: reset of a failed/never started/dead job, or empty directories at completion",
-	"(*Metadata).remove":                   "single metadata file",
-	"(*Metadata)._removeNoLock":            "single metadata file",
-	"(*Metadata).uncheckedReset":           "journal entries of the attempt being reset",
-	"(*Node).reset":                        "whole node directory on full stage reset + its journal entries",
-	"(*Node).postProcess":                  "journal and tmp directories at pipestance completion",
-	"(*Node).refreshState":                 "journal entries after they were applied",
-	"(*Pipestance).ZipMetadata":            "metadata files after they were zipped",
-	"(*Pipestance).Immortalize":            "stale zip",
-	"(*Runtime).InvokePipeline":            "roll-back of a failed first invocation (nothing ran yet)",
-	"(*Runtime).reattachToPipestance":      "metadata zip after unzipping",
-	"(*Fork).vdrKillSome":                  "FILES: per-file VDR",
-	"(*Fork).vdrKill":                      "FILES: chunk files of a splitting stage",
-	"(*Fork).cleanSplitTemp":               "TEMP: split tmp directory",
-	"(*Fork).cleanChunkTemp":               "TEMP: chunk tmp directories",
-	"(*Fork).cleanJoinTemp":                "TEMP: join tmp directory",
-	"writeAtomic":                          "temporary file of a failed atomic write",
+	"(*Metadata).uniquify":            "roll-back of a failed uniquify (directories it just created)",
+	"(*Metadata).removeAll":           "FILES: reset of a failed/never started/dead job, or empty directories at completion",
+	"(*Metadata).remove":              "single metadata file",
+	"(*Metadata)._removeNoLock":       "single metadata file",
+	"(*Metadata).uncheckedReset":      "journal entries of the attempt being reset",
+	"(*Node).reset":                   "whole node directory on full stage reset + its journal entries",
+	"(*Node).postProcess":             "journal and tmp directories at pipestance completion",
+	"(*Node).refreshState":            "journal entries after they were applied",
+	"(*Pipestance).ZipMetadata":       "metadata files after they were zipped",
+	"(*Pipestance).Immortalize":       "stale zip",
+	"(*Runtime).InvokePipeline":       "roll-back of a failed first invocation (nothing ran yet)",
+	"(*Runtime).reattachToPipestance": "metadata zip after unzipping",
+	"(*Fork).vdrKillSome":             "FILES: per-file VDR",
+	"(*Fork).vdrKill":                 "FILES: chunk files of a splitting stage",
+	"(*Fork).cleanSplitTemp":          "TEMP: split tmp directory",
+	"(*Fork).cleanChunkTemp":          "TEMP: chunk tmp directories",
+	"(*Fork).cleanJoinTemp":           "TEMP: join tmp directory",
+	"writeAtomic":                     "temporary file of a failed atomic write",
 }
 
 func isRemoveCall(in ssa.Instruction) (ssa.CallInstruction, bool) {
@@ -616,10 +616,10 @@ func ruleV5(c *an.Ctx) {
 }
 
 // copiesNestedMap: fn copies src.f (a map of maps) entry by entry:
-//  - every path to return ranges over src.f unless len(src.f) == 0,
-//  - every outer iteration ranges over the entry's inner map unless it is nil,
-//  - every inner iteration stores the inner key into a new map,
-//  - a map update keyed by the outer key targets the new object's field f.
+//   - every path to return ranges over src.f unless len(src.f) == 0,
+//   - every outer iteration ranges over the entry's inner map unless it is nil,
+//   - every inner iteration stores the inner key into a new map,
+//   - a map update keyed by the outer key targets the new object's field f.
 func copiesNestedMap(fn *ssa.Function, f *types.Var) (bool, string) {
 	src := ssa.Value(fn.Params[0])
 	var outer *ssa.Range
